@@ -30,3 +30,10 @@ func zzPlainMessage(cmd uint32, flags uint8, app, hbh uint32) []byte {
 	b[12], b[13], b[14], b[15] = byte(hbh>>24), byte(hbh>>16), byte(hbh>>8), byte(hbh)
 	return b
 }
+
+func zzB2U(b bool) uint64 {
+	if b {
+		return 1
+	}
+	return 0
+}
